@@ -709,8 +709,11 @@ pub(crate) fn run(
                     ix = ix_end;
                 }
                 Insn::BackrefExistsCondition(group) => {
-                    let lo = state.get(group * 2);
-                    if lo == usize::MAX {
+                    // A group has matched once its end has been recorded. Looking at the start
+                    // only would also accept a group that is still open for the first time, for
+                    // which a back-reference does not match either.
+                    let hi = state.get(group * 2 + 1);
+                    if hi == usize::MAX {
                         // Referenced group hasn't matched, so the backref doesn't match either
                         break 'fail;
                     }
